@@ -125,7 +125,13 @@ def make(t: str, s: dict, route: int = 0):
         return pyo.ldt_from(s["cal"], s["n"], s["ns"])
     if t == "yearmonth":
         if route:
-            return LocalDate(s["y"], s["m"], 1, pyo.cal(s["cal"])).to_year_month()
+            # from a date inside the month, not just its first day (the year-month of a date forgets the day)
+            cal_ = pyo.cal(s["cal"])
+            day = 1 + (s["y"] * 7 + s["m"] * 3) % cal_.get_days_in_month(s["y"], s["m"])
+            try:
+                return LocalDate(s["y"], s["m"], day, cal_).to_year_month()
+            except (ValueError, OverflowError):  # partial first / last month of a calendar
+                return LocalDate(s["y"], s["m"], 1, cal_).to_year_month()
         return YearMonth(year=s["y"], month=s["m"], calendar=pyo.cal(s["cal"]))
     if t == "annual":
         return AnnualDate(s["m"], s["d"])
